@@ -6,6 +6,7 @@
 //!        target: / | db:S | dbp:S (same, every byte percent-encoded on the wire) | badutf8:S (raw path) | unrouted:S (raw path)
 //!        pvar  : d (default parameters) | x (default parameters plus fields naming other databases) | n (null parameters)
 //!                | ro (like d, but `*.set_read_only` switch read-only ON) | fixture (collection.ensure creates `c1`)
+//!        target may also be raw:S - the raw request target (path and query) - which the model routes itself
 //!   restart                (clean stop, new AppState over the same store)
 //!   crash                  (the process dies without flushing; new AppState over what the store holds; the model treats it as restart)
 //!   fixture <S>            (harness only: populate database S through the admin; not sent to the model)
@@ -42,7 +43,12 @@ pub enum Body {
 #[derive(Clone, Debug, PartialEq, Eq)]
 pub struct Req {
     pub verb: String,
+    /// what the request addresses, as the *harness* resolves it (for a raw target: by its own
+    /// reading of the path, independent of the model and of the router)
     pub target: Target,
+    /// the raw request target (path and query) when the line gives one (`raw:S`): sent as is to the
+    /// router, and routed by the model's `routePath`
+    pub raw: Option<String>,
     pub auth: Option<Vec<u8>>,
     pub ct: Option<Enc>,
     pub accept: Option<Enc>,
@@ -125,6 +131,38 @@ pub fn show_names(names: &[String]) -> String {
     v.iter().map(|n| hex_str(n)).collect::<Vec<_>>().join(",")
 }
 
+/// The harness's own reading of a raw request target (independent of the Lean model and of the
+/// router): the query is cut off, `/` is the root, one non-empty segment is a database name after
+/// percent-decoding (malformed `%` sequences stay literal) if that is UTF-8.
+pub fn resolve_raw(t: &str) -> Target {
+    let path = t.split('?').next().unwrap_or("");
+    let Some(seg) = path.strip_prefix('/') else { return Target::Unrouted(t.to_string()) };
+    if seg.is_empty() {
+        return Target::Root;
+    }
+    if seg.contains('/') {
+        return Target::Unrouted(t.to_string());
+    }
+    let b = seg.as_bytes();
+    let hex = |c: u8| (c as char).to_digit(16).map(|d| d as u8);
+    let (mut out, mut i) = (Vec::new(), 0);
+    while i < b.len() {
+        if b[i] == b'%' && i + 2 < b.len() {
+            if let (Some(h), Some(l)) = (hex(b[i + 1]), hex(b[i + 2])) {
+                out.push(h * 16 + l);
+                i += 3;
+                continue;
+            }
+        }
+        out.push(b[i]);
+        i += 1;
+    }
+    match String::from_utf8(out) {
+        Ok(name) => Target::Db { name, pct: false },
+        Err(_) => Target::BadUtf8(t.to_string()),
+    }
+}
+
 impl Req {
     pub fn route_class(&self) -> String {
         let t = match &self.target {
@@ -157,6 +195,7 @@ impl Op {
             Op::Fixture(n) => format!("fixture {}", enc_str(n)),
             Op::Req(r) => {
                 let target = match &r.target {
+                    _ if r.raw.is_some() => format!("raw:{}", enc_str(r.raw.as_deref().unwrap())),
                     Target::Root => "/".to_string(),
                     Target::Db { name, pct: false } => format!("db:{}", enc_str(name)),
                     Target::Db { name, pct: true } => format!("dbp:{}", enc_str(name)),
@@ -183,7 +222,13 @@ impl Op {
             ["crash"] => Some(Op::Crash),
             ["fixture", n] => Some(Op::Fixture(dec_str(n)?)),
             ["req", verb, target, auth, ct, accept, body @ ..] => {
-                let target = if *target == "/" {
+                let mut raw = None;
+                let target = if let Some(t) = target.strip_prefix("raw:") {
+                    let t = dec_str(t)?;
+                    let resolved = resolve_raw(&t);
+                    raw = Some(t);
+                    resolved
+                } else if *target == "/" {
                     Target::Root
                 } else if let Some(n) = target.strip_prefix("db:") {
                     Target::Db { name: dec_str(n)?, pct: false }
@@ -204,7 +249,7 @@ impl Op {
                     }
                     _ => return None,
                 };
-                Some(Op::Req(Req { verb: verb.to_string(), target, auth, ct: enc_parse(ct)?, accept: enc_parse(accept)?, body }))
+                Some(Op::Req(Req { verb: verb.to_string(), target, raw, auth, ct: enc_parse(ct)?, accept: enc_parse(accept)?, body }))
             }
             _ => None,
         }
